@@ -651,9 +651,13 @@ def run_and_validate(ctx, bins, sched, deadline=240):
     return out, hist, r, res
 
 
+def artifact_dir(ctx, res):
+    return os.path.join(vlib.REPLAYS, ctx.id, "streams-%s-seed%d-%s" % (ctx.tier, ctx.seed, res["sched"]["name"]))
+
+
 def keep_artifacts(ctx, res):
     """Copy the recorded streams of a failing run next to the replay file."""
-    dst = os.path.join(vlib.REPLAYS, ctx.id, "streams-%s-seed%d-%s" % (ctx.tier, ctx.seed, res["sched"]["name"]))
+    dst = artifact_dir(ctx, res)
     try:
         shutil.rmtree(dst, ignore_errors=True)
         shutil.copytree(res["out"], dst)
@@ -885,10 +889,11 @@ def run(ctx):
         if hist is None:
             inconclusive.append("%s: %s" % (name, out.get("why")))
             continue
-        replay = {"schedule": res["sched"], "how": "./check C05 --replay <this file>"}
+        replay = {"schedule": res["sched"], "how": "./check C05 --replay <this file>",
+                  "recorded_streams": artifact_dir(ctx, res)}
         verdict = judge(ctx, res, hist, r, replay) if r is not None else "inconclusive"
-        if verdict in ("violation", "known", "drift"):
-            replay["streams"] = keep_artifacts(ctx, res) if verdict == "violation" else None
+        if verdict == "violation":
+            keep_artifacts(ctx, res)
         if verdict == "known" and res["sched"].get("origin") == "f7":
             f7_seen = True
         if verdict == "known":
